@@ -10,6 +10,7 @@ import (
 	"os"
 	"sort"
 	"sync"
+	"sync/atomic"
 
 	"github.com/piotrnar/gocoin/lib/btc"
 	"github.com/piotrnar/gocoin/lib/chain"
@@ -55,6 +56,18 @@ type Options struct {
 	// genesis block instead, which is the same logical state with small maps.
 	TrueFresh bool
 }
+
+// ObserverCallbacks returns UTXO callbacks that only count: the client installs callbacks when its wallet is on, and
+// UnspentDB then takes other code paths (commit workers, undo) than without them.
+func ObserverCallbacks() utxo.CallbackFunctions {
+	return utxo.CallbackFunctions{
+		NotifyTxAdd: func(*utxo.UtxoRec) { atomic.AddInt64(&ObserverCalls, 1) },
+		NotifyTxDel: func(*utxo.UtxoRec, []bool) { atomic.AddInt64(&ObserverCalls, 1) },
+	}
+}
+
+// ObserverCalls counts the calls of the ObserverCallbacks.
+var ObserverCalls int64
 
 // Node wraps a gocoin chain.
 type Node struct {
